@@ -395,6 +395,9 @@ func needsDupCheck(ix schema.Index, rec core.Record) bool {
 
 func uniqueIndexEmpty(rec core.Record, is ixkey.Spec) bool {
 	for _, f := range is.Fields {
+		if f < 0 { // _lower!
+			f = -f - 2
+		}
 		if rec.GetRaw(f) != "" {
 			return false
 		}
